@@ -1,2 +1,4 @@
 def run(ctx):
-    return ""
+    from . import frame_proofs
+
+    return frame_proofs.run(ctx, "C13")
